@@ -855,3 +855,55 @@ pub fn reachable_counters(s: &mut Src, p: &Pos, half_wish: u32, full_wish: u32) 
     };
     (half, full)
 }
+
+/// A very long game from the start position (up to `plies` plies) in which no position occurs
+/// twice and the fifty-move clock never passes 140: captures are avoided while material lasts (the
+/// game must go on), a pawn move or capture is preferred when the clock gets high, and a move that
+/// would bring an earlier position about again is avoided when another exists.  Returns the moves,
+/// the final position and the number of distinct positions (start included).
+pub fn long_game(s: &mut Src, plies: usize) -> (Vec<Mv>, Pos, usize) {
+    let mut p = Pos::startpos();
+    let mut seen: std::collections::HashSet<Pos> = std::collections::HashSet::new();
+    seen.insert(p.clone());
+    let mut moves = Vec::new();
+    let mut clock = 0u32;
+    for _ in 0..plies {
+        let legal = p.legal_moves();
+        if legal.is_empty() {
+            break;
+        }
+        let ws: Vec<usize> = legal
+            .iter()
+            .map(|m| {
+                let i = p.info(*m);
+                let pawn = p.sq[m.from as usize].map(|x| x.1) == Some(Kind::P);
+                let resets = i.capture || pawn;
+                let mut w = if i.capture { 1 } else { 12 };
+                if clock > 110 {
+                    w = if resets { 400 } else { 1 };
+                } else if pawn {
+                    w = 2;
+                }
+                if p.men() <= 10 && i.capture {
+                    w = 0;
+                }
+                if seen.contains(&p.make(*m)) {
+                    w = 0;
+                }
+                w
+            })
+            .collect();
+        let m = if ws.iter().all(|w| *w == 0) { legal[s.below(legal.len())] } else { legal[s.weighted(&ws)] };
+        let i = p.info(m);
+        let pawn = p.sq[m.from as usize].map(|x| x.1) == Some(Kind::P);
+        clock = if i.capture || pawn { 0 } else { clock + 1 };
+        p = p.make(m);
+        moves.push(m);
+        seen.insert(p.clone());
+        if clock > 140 {
+            break;
+        }
+    }
+    let n = seen.len();
+    (moves, p, n)
+}
